@@ -214,6 +214,15 @@ func (tt *TypeTable) slots(t types.Type) int64 {
 	return 1
 }
 
+func (tt *TypeTable) slotsSafe(t types.Type) (n int64) {
+	defer func() {
+		if r := recover(); r != nil {
+			n = 1
+		}
+	}()
+	return tt.slots(t)
+}
+
 // heapKey names the element heap used for values of type t stored in slices, arrays and cells.
 // Element memory is block structured: object (allocation) -> offset -> value.
 func (tt *TypeTable) elemHeap(t types.Type) (string, Sort) {
@@ -296,7 +305,14 @@ func (tt *TypeTable) preamble() string {
 func (tt *TypeTable) typeInv(v Term, t types.Type, alloc Term) Term {
 	lim := bvLit(64, 1<<40)
 	switch u := t.Underlying().(type) {
-	case *types.Pointer, *types.Map, *types.Chan, *types.Signature:
+	case *types.Pointer:
+		// the whole pointee (including embedded structs and arrays) lies below the frontier
+		n := tt.slotsSafe(u.Elem())
+		if n > 1 {
+			return mkOr(mkEq(v, i64(0)), mkAnd(ule(i64(4096), v), ult(v, alloc), ule(bvAdd(v, i64(n)), alloc)))
+		}
+		return mkOr(mkEq(v, i64(0)), mkAnd(ule(i64(4096), v), ult(v, alloc)))
+	case *types.Map, *types.Chan, *types.Signature:
 		return mkOr(mkEq(v, i64(0)), mkAnd(ule(i64(4096), v), ult(v, alloc)))
 	case *types.Basic:
 		switch u.Kind() {
